@@ -136,6 +136,12 @@ int main(int argc, char** argv) {
                 else if (t == "gdamper") fel.push_back(Force::GlobalDamper(forces, matter, e["c"].dbl()));
                 else if (t == "tpls") fel.push_back(Force::TwoPointLinearSpring(forces, mb[(int)e["b"].num()], vec(e["st"]), mb[(int)e["b2"].num()], vec(e["st2"]), e["c"].dbl(), e["x0"].dbl()));
                 else if (t == "tpld") fel.push_back(Force::TwoPointLinearDamper(forces, mb[(int)e["b"].num()], vec(e["st"]), mb[(int)e["b2"].num()], vec(e["st2"]), e["c"].dbl()));
+                else if (t == "lbush") {      // a LinearBushing across the Bushing mobilizer of body e.b, on that mobilizer's own frames
+                    const int b = (int)e["b"].num(); const mj::Value& d = c["desc"][b - 1];
+                    const Transform XPF(frameRot(d["RF"]), vec(d["pF"])), XBM(frameRot(d["RM"]), vec(d["pM"]));
+                    Vec6 kk, cc; for (int i = 0; i < 6; ++i) { kk[i] = e["k6"][i].dbl(); cc[i] = e["c6"][i].dbl(); }
+                    fel.push_back(Force::LinearBushing(forces, mb[(int)d["parent"].num()], XPF, mb[b], XBM, kk, cc));
+                }
                 else if (t == "cable") {      // a cable through points on bodies; disabled via points are obstacles disabled by default
                     const mj::Value& pts = e["pts"]; const int np = (int)pts.size();
                     CablePath path(*cables, mb[(int)pts[0]["b"].num()], vec(pts[0]["st"]), mb[(int)pts[np - 1]["b"].num()], vec(pts[np - 1]["st"]));
@@ -375,13 +381,16 @@ int main(int argc, char** argv) {
                 State sf = system.getDefaultState();
                 if (c.has("euler") && c["euler"].num()) matter.setUseEulerAngles(sf, true);
                 system.realizeModel(sf); setCoords(sf, c["q"], c["u"]);
-                for (int pass = 0; pass < 2; ++pass) {
+                for (int pass = 0; pass < 3; ++pass) {
                     const mj::Value& FE = pass ? c["felems2"] : c["felems"];
+                    if (pass == 2) {      // third pass: ONLY the speeds change (second parameter set stays): velocity-dependent laws must follow
+                        for (int i = 0; i < N; ++i) for (int k = 0; k < mb[i + 1].getNumU(sf); ++k) mb[i + 1].setOneU(sf, k, c["u2"][i][k].dbl());
+                    } else
                     for (size_t k = 0; k < fel.size(); ++k) {
                         const mj::Value& e = FE[(int)k]; const string t = e["type"].str();
                         const mj::Value& e0 = c["felems"][(int)k];      // only what CHANGES is touched in the second pass
                         if (!pass || e["on"].num() != e0["on"].num()) { if (e["on"].num()) fel[k].enable(sf); else fel[k].disable(sf); }
-                        if (pass) {   // runtime parameter changes
+                        if (pass == 1) {   // runtime parameter changes
                             if (t == "gravity") { const Force::Gravity& g = Force::Gravity::downcast(fel[k]);
                                                   if (vec(e["g"]) != vec(e0["g"])) g.setGravityVector(sf, vec(e["g"]));
                                                   for (int i = 1; i <= N; ++i) if (e["ex"][i - 1].num() != e0["ex"][i - 1].num()) g.setBodyIsExcluded(sf, mb[i].getMobilizedBodyIndex(), e["ex"][i - 1].num() != 0); }
@@ -389,12 +398,15 @@ int main(int argc, char** argv) {
                             else if (t == "mls") { if (e["c"].dbl() != e0["c"].dbl()) Force::MobilityLinearSpring::downcast(fel[k]).setStiffness(sf, e["c"].dbl());
                                                    if (e["q0"].dbl() != e0["q0"].dbl()) Force::MobilityLinearSpring::downcast(fel[k]).setQZero(sf, e["q0"].dbl()); }
                             else if (t == "mld") { if (e["c"].dbl() != e0["c"].dbl()) Force::MobilityLinearDamper::downcast(fel[k]).setDamping(sf, e["c"].dbl()); }
+                            else if (t == "lbush") { Vec6 kk, cc, k0, c0; for (int i = 0; i < 6; ++i) { kk[i] = e["k6"][i].dbl(); cc[i] = e["c6"][i].dbl(); k0[i] = e0["k6"][i].dbl(); c0[i] = e0["c6"][i].dbl(); }
+                                                     if (kk != k0) Force::LinearBushing::downcast(fel[k]).setStiffness(sf, kk);
+                                                     if (cc != c0) Force::LinearBushing::downcast(fel[k]).setDamping(sf, cc); }
                         } else if (t == "gravity") { const Force::Gravity& g = Force::Gravity::downcast(fel[k]);
                             for (int i = 1; i <= N; ++i) g.setBodyIsExcluded(sf, mb[i].getMobilizedBodyIndex(), e["ex"][i - 1].num() != 0); }
                     }
                     system.realize(sf, Stage::Dynamics);
                     const Vector_<SpatialVec>& BF = system.getRigidBodyForces(sf, Stage::Dynamics); const Vector& MF = system.getMobilityForces(sf, Stage::Dynamics);
-                    js << (pass ? ",\"forces2\":{" : ",\"forces\":{") << "\"body\":[";
+                    js << (pass == 2 ? ",\"forces3\":{" : pass ? ",\"forces2\":{" : ",\"forces\":{") << "\"body\":[";
                     for (int i = 1; i <= N; ++i) { const SpatialVec& W = BF[mb[i].getMobilizedBodyIndex()]; js << (i > 1 ? "," : "") << "{\"t\":" << jv(W[0]) << ",\"f\":" << jv(W[1]) << "}"; }
                     js << "],\"mob\":["; for (int j = 0; j < nu; ++j) js << (j ? "," : "") << num(MF[j]);
                     js << "],\"pe2\":" << num(2 * system.calcPotentialEnergy(sf)) << ",\"power\":[";
@@ -411,13 +423,14 @@ int main(int argc, char** argv) {
                     bool firstTp = true;
                     for (size_t k = 0; k < fel.size(); ++k) {
                         const string t = FE[(int)k]["type"].str();
-                        if (!(t == "tpls" || t == "tpld" || t == "tpcf" || t == "cable") || !FE[(int)k]["on"].num()) continue;
+                        if (!(t == "tpls" || t == "tpld" || t == "tpcf" || t == "cable" || t == "lbush") || !FE[(int)k]["on"].num()) continue;
                         Vector_<SpatialVec> bf; Vector_<Vec3> pf; Vector mf; fel[k].calcForceContribution(sf, bf, pf, mf);
                         Vec3 ftot(0), mtot(0);
                         js << (firstTp ? "" : ",") << "{\"k\":" << k << ",\"W\":["; firstTp = false;
                         for (int i = 0; i <= N; ++i) { const SpatialVec& W = bf[mb[i].getMobilizedBodyIndex()]; const Vec3 o = mb[i].getBodyOriginLocation(sf);
                             ftot += W[1]; mtot += W[0] + o % W[1];
                             js << (i ? "," : "") << "{\"t\":" << jv(W[0]) << ",\"f\":" << jv(W[1]) << "}"; }
+                        { Vector gen; matter.multiplyBySystemJacobianTranspose(sf, bf, gen); js << "],\"gen\":["; for (int j = 0; j < nu; ++j) js << (j ? "," : "") << num(gen[j]); }
                         js << "],\"mobnorm\":" << num(mf.size() ? mf.normInf() : 0.0) << ",\"ftot\":" << jv(ftot) << ",\"mtot\":" << jv(mtot) << ",\"pe\":" << num(fel[k].calcPotentialEnergyContribution(sf)) << "}";
                     }
                     js << "]}";
